@@ -1,4 +1,8 @@
-Require Import QtlVerif.ShutdownDefs.
+Require Import QtlVerif.ShutdownDefs QtlVerif.SrcShutdown.
 Require Extraction.
 Require Import ExtrOcamlBasic.
-Extraction "shutdown_model.ml" accept_shutdown prop_c04_b stuck_b run init mu.
+(* the model's code-dependent switch is computed from the translated skeleton *)
+Definition rc_src : bool := rechecks_after_relock src_skeleton.
+Definition accept_src := accept_shutdown rc_src.
+Definition run_src := run rc_src.
+Extraction "shutdown_model.ml" accept_src prop_c04_b stuck_b errorb run_src init mu rc_src.
